@@ -141,6 +141,57 @@ class Coercible(Contract):
         return out
 
 
+def _coercible_standin(seed=0, tier="quick"):
+    """run-time contract on the REAL numpy_pandas_coercible (used when the function leaves the subset): for object series over a pool
+    that contains values which compare equal but are of different type (True / 1 / 1.0 / Decimal(1), False / 0 / 0.0), in every
+    order, result[i] <=> data_type.coerce_value(series[i]) does not raise - per POSITION, not per distinct value."""
+    import decimal
+    import itertools
+    import random
+    import warnings
+
+    import pandas as pd
+
+    from pandera.engines import pandas_engine
+    from pandera.engines.utils import numpy_pandas_coercible
+
+    warnings.simplefilter("ignore")
+    rng = random.Random(seed)
+    pool = [True, 1, 1.0, decimal.Decimal(1), False, 0, 0.0, "1", "a", "2020-01-01", pd.Timestamp("2020-01-01"), None, float("nan"), 2, -1, 1.5]
+    types = [("DateTime", pandas_engine.DateTime()), ("Date", pandas_engine.Date()), ("Decimal", pandas_engine.Decimal(10, 2)), ("INT64", pandas_engine.INT64()),
+             ("BOOL", pandas_engine.BOOL()), ("STRING", pandas_engine.NpString()), ("Timedelta", pandas_engine.Engine.dtype("timedelta64[ns]"))]
+    cases = [list(p) for p in itertools.permutations(pool[:8], 2)]
+    for _ in range(60 if tier == "quick" else 600):
+        cases.append([rng.choice(pool) for _ in range(rng.randint(0, 5))])
+    examples = 0
+    for name, dt in types:
+        for vals in cases:
+            s = pd.Series(vals, dtype=object)
+            examples += 1
+
+            def ok(x):
+                try:
+                    dt.coerce_value(x)
+                    return True
+                except Exception:  # noqa: BLE001
+                    return False
+
+            want = [ok(x) for x in vals]
+            try:
+                got = [bool(b) for b in numpy_pandas_coercible(s, dt)]
+            except Exception as e:  # noqa: BLE001
+                return {"examples": examples, "bound": "object series <= 5 over a 16-value pool incl. ==-equal values of different type, 7 data types",
+                        "failing_input": {"dtype": name, "values": [repr(v) for v in vals]}, "observed": f"raised {type(e).__name__}: {e}"}
+            if got != want:
+                return {"examples": examples, "bound": "object series <= 5 over a 16-value pool incl. ==-equal values of different type, 7 data types",
+                        "failing_input": {"dtype": name, "values": [repr(v) for v in vals]},
+                        "observed": {"coercible flags": got, "coerce_value succeeds per element": want}}
+    return {"examples": examples, "bound": "object series <= 5 over a 16-value pool incl. ==-equal values of different type, 7 data types", "failing_input": None}
+
+
+Coercible.bounded_standin = staticmethod(_coercible_standin)
+
+
 class ArrayCoerceDtype(Contract):
     """ArraySchemaBackend.coerce_dtype: schema-level use of try_coerce."""
 
